@@ -126,11 +126,11 @@ def r_item(it, kinds, st, second_of_join=False):
             # the first two clauses that mentions a variable of the FIRST clause only inside a macro invocation makes ascent_hir.rs
             # take the two clauses for a reorderable "simple join" (expr_get_vars sees no variable) and the reordered variant of the
             # rule evaluates the condition where that variable is not in scope (rustc E0425).  Such a condition is written plainly.
+            # (until the repair 5dae626 in /repo such a condition had to be written plainly: the program did not compile; it is now
+            # rendered like every other one and counted as regression coverage of that repair)
             if second_of_join and not cond_uses(c) <= own:
                 st.forced_plain += 1
-                s += " " + r_cond(c, kinds, PLAIN)
-            else:
-                s += " " + r_cond(c, kinds, st)
+            s += " " + r_cond(c, kinds, st)
             if c[0] != "if":
                 own.add(c[1])
         return s
